@@ -40,7 +40,7 @@ from frappy.params import Parameter
 from frappy.protocol.messages import COMMANDREPLY, DESCRIPTIONREPLY, \
     DISABLEEVENTSREPLY, ENABLEEVENTSREPLY, ERRORPREFIX, EVENTREPLY, \
     HEARTBEATREPLY, IDENTREPLY, IDENTREQUEST, LOG_EVENT, LOGGING_REPLY, \
-    READREPLY, WRITEREPLY
+    READREPLY, REQUEST2REPLY, WRITEREPLY
 
 
 def make_update(modulename, pobj):
@@ -206,9 +206,14 @@ class Dispatcher:
             # special case for *IDN?
             if action == IDENTREQUEST:
                 action, specifier, data = '_ident', None, None
+            elif action == '_ident':
+                raise ProtocolError(f'unhandled message: {repr(msg)}')
 
             self.log.debug('Looking for handle_%s', action)
-            handler = getattr(self, f'handle_{action}', None)
+            handler = None
+            if action == '_ident' or action in REQUEST2REPLY:
+                # do not let an arbitrary action name select a method (like handle__ident)
+                handler = getattr(self, f'handle_{action}', None)
 
             if handler:
                 return handler(conn, specifier, data)
